@@ -150,11 +150,8 @@ CanonInvVerdict(e) ==
 LOCAL SQV == INSTANCE SequencesExt
 NoItem == {0 - 1}
 IterRun(n, ks) ==
-  LET step(st, k) ==
-        IF ~st.ok THEN [st EXCEPT !.items = Append(@, NoItem)]
-        ELSE LET a == AddTab(n, st.cur, k) IN
-             IF ~a.ok THEN [cur |-> {}, ok |-> FALSE, items |-> Append(st.items, NoItem)]
-             ELSE LET s == Succ(n, a.on) IN [cur |-> s.on, ok |-> s.ok, items |-> Append(st.items, a.on)]
+  LET step(st, k) == LET x == IterNth(n, st, k) IN
+                     [cur |-> x.cur, ok |-> x.ok, items |-> Append(st.items, IF x.some THEN x.item ELSE NoItem)]
   IN SQV!FoldLeft(step, [cur |-> {}, ok |-> TRUE, items |-> <<>>], ks)
 ItemOK(n, j, exp) == IF exp = NoItem THEN ~j.some
                      ELSE j.some /\ j.t.n = n /\ WFTab(j.t) /\ Meaning(j.t) = exp
